@@ -17,6 +17,7 @@ type rpcWeights struct {
 	timeoutPct                                                                        int // percent of calls with a timeout
 	progPct                                                                           int // percent of calls asking receive_progress
 	exactTimes                                                                        bool
+	hotPct                                                                            int // percent of REGISTERs aimed at one shared 'hot' procedure
 }
 
 var procPool = []string{"a", "a.b", "a.b.c", "a.b2", "a.x.c", "b", "a.b.c.d", "b.b.c"}
@@ -118,6 +119,8 @@ func runRPCScript(c *Case, w rpcWeights, trackMeta bool) *rpcRun {
 	if trackMeta {
 		exec(model.Op{Kind: model.OpSubscribe, P: 0, Req: g.nextReq(0), URI: "wamp.", Opts: matchOpts("prefix")})
 	}
+	hotInvoke := pick(r, []string{"first", "last", "roundrobin", "roundrobin", "random"})
+	hotURI, hotMatch := pick(r, []string{"a.b", "a", "b"}), pick(r, []string{"", "prefix"})
 	total := w.register + w.unregister + w.call + w.yield + w.inverr + w.cancel + w.advance + w.leave + w.join + w.foreign
 	nSteps := 20 + r.IntN(41)
 	type closedCall struct {
@@ -157,6 +160,14 @@ func runRPCScript(c *Case, w rpcWeights, trackMeta bool) *rpcRun {
 		p := pick(r, al)
 		switch kind {
 		case "register":
+			if chance(r, w.hotPct) {
+				// many members on one shared registration, so that rotation,
+				// first/last and removal from the middle are exercised
+				opts := matchOpts(hotMatch)
+				opts["invoke"] = hotInvoke
+				exec(model.Op{Kind: model.OpRegister, P: p, Req: g.nextReq(p), URI: hotURI, Opts: opts})
+				continue
+			}
 			uri, m := g.topicAndMatch(8)
 			if m == "" || m == "exact" {
 				uri = pick(r, procPool)
